@@ -149,6 +149,6 @@ def e_stat(c):
 
 
 PARTS = [
-    Part("det", e_det, s_det(), quick=800, thorough=5000, shards=8, rule="deterministic clauses under fixed numpy seeds"),
-    Part("stat", e_stat, s_stat(), quick=40, thorough=150, shards=16, quick_shards=4, shrink=False, rule="ASE statistics over 2^16..2^18 samples, six-sigma bands"),
+    Part("det", e_det, s_det(), quick=800, thorough=40000, shards=8, rule="deterministic clauses under fixed numpy seeds"),
+    Part("stat", e_stat, s_stat(), quick=40, thorough=1200, shards=16, quick_shards=4, shrink=False, rule="ASE statistics over 2^16..2^18 samples, six-sigma bands"),
 ]
